@@ -88,6 +88,10 @@ func selftestRegex() int {
 func cmdSelftest(args []string) int {
 	fails := selftestRegex()
 	fails += selftestStrings()
+	if len(args) == 0 || args[0] != "--no-solvers" {
+		fails += crossCheck("C14", "VsymC14", 4)
+		fails += crossCheck("C05", "VsymC05Final", 150)
+	}
 	if fails > 0 {
 		fmt.Fprintln(os.Stderr, "selftest FAILED")
 		return 1
